@@ -2,13 +2,13 @@
 package c09
 
 import (
-	"time"
 	"github.com/csgura/fp"
 	"github.com/csgura/fp/eq"
 	"github.com/csgura/fp/hash"
 	"github.com/csgura/fp/hlist"
 	zz "github.com/csgura/fp/internal/zzverif"
 	"github.com/csgura/fp/lazy"
+	"time"
 )
 
 func eqLaws[T any](e fp.Eq[T], a, b, c T, l string) {
